@@ -167,7 +167,7 @@ def run(ctx):
                 exprs.append(f"run_native ord_id true fo defs {op} [{a}]")
         model = nc.resolve_sentinels(nc.run_model(exprs, pre, "c07n"))
         for (op, args), i, m in zip(cases, impl, model):
-            alts = [strip_site(x) for x in m.split("\\u{3}")]
+            alts = [strip_site(x) for x in m.split("\x03")]
             if len(alts) > 1:
                 order_dep.append(dict(op=op, args=args, outcomes=alts))
             if i not in alts:
@@ -185,7 +185,7 @@ def run(ctx):
         cexprs = [f"all_orders (fun oo => {mk('oo')})" for _, _, mk, _ in cmds]
         cmodel = nc.resolve_sentinels(nc.run_model(cexprs, pre + rngt, "c07c"))
         for (kind, content, _, sd), i, m in zip(cmds, cimpl, cmodel):
-            alts = [strip_site(x) for x in m.split("\\u{3}")]
+            alts = [strip_site(x) for x in m.split("\x03")]
             if len(alts) > 1:
                 order_dep.append(dict(op=kind, content=content, outcomes=alts))
             if i not in alts:
